@@ -91,7 +91,6 @@ PointAll == AllV \cup {Alpha, Rc, Junk(0)}
 N2 == {"n1", "n2"}
 N3 == {"n1", "n2", "n3"}
 N4 == {"n1", "n2", "n3", "n4"}
-NoNodes == {}
 TgtAB  == {"a", "b"}
 TgtSAB == {"s", "a", "b"}
 
